@@ -139,6 +139,12 @@ def reuse_replay(ctx, drv, prop):
                               "a reply was changed (released and reset) while its caller still owned it: %s" % json.dumps(e)[:300],
                               artefact={"event": e, "paths_file": f})
             continue
+        if e["ev"] == "rp.stray":
+            if prop == ("C18" if e.get("closed") else "C06"):
+                ctx.violation("Inv_C06_NoStray:replay" + (":closed" if e.get("closed") else ""),
+                              "after every caller had returned and the transport's goroutines had run down, connection(s) %s were open but not in the idle set, or in the idle set without being one of the transport's connections: %s"
+                              % (e.get("conns"), json.dumps(e)[:400]), artefact={"event": e, "paths_file": f})
+            continue
         if e["ev"] not in ("rp.diverge", "rp.stuck"):
             continue
         fields = ",".join(sorted({x.split(":")[0].split("[")[0] for x in e.get("diff", [])})) or "stuck"
